@@ -268,7 +268,11 @@ func entryParser(rc *RunCtx) *Violation {
 	if !sameResult(pivot, viaReader) {
 		return viol("Parse-vs-ParseString", fmt.Sprintf("Parse over a reader (schedule %s, %d reads, eof-with-data=%v) = %s but ParseString = %s", r.shape, r.reads, r.eofWithData, clip(viaReader.desc(), 500), clip(pivot.desc(), 500)))
 	}
-	viaBytes := call(func() (interface{}, error) { return p.ParseBytes(name, []byte(d)) })
+	callerBuf := []byte(d)
+	viaBytes := call(func() (interface{}, error) { return p.ParseBytes(name, callerBuf) })
+	for i := range callerBuf {
+		callerBuf[i] = 'X' // the caller reuses its buffer: the result must not change with it
+	}
 	if !sameResult(pivot, viaBytes) {
 		return viol("ParseBytes-vs-ParseString", fmt.Sprintf("ParseBytes = %s but ParseString = %s", clip(viaBytes.desc(), 500), clip(pivot.desc(), 500)))
 	}
